@@ -87,11 +87,16 @@ theorem forIn_toSrc {α σ τ ρ : Type} (toSrc : τ → σ) (f : τ → α → 
   | nil => rfl
   | cons x xs ih => rw [PyRt.forIn, hbody]; exact ih _
 
-/-- the loop state of the source (`csv_str`, `orig_chr_name`) for the model's state (`out`, `seen`) -/
-def toSrc (t : List (Str × Str × Bool) × List (Option Str × Str)) : Str × List (Option Str × Str) :=
-  (renderCsv t.1, t.2)
+/-- THE place that knows the order of the generated loop-state tuple (the translator sorts the carried variables by the Lean text
+    of their type, then by name): `csv_str`, `orig_chr_name` ↦ the generated tuple -/
+abbrev csvSt (csv_str : Str) (orig_chr_name : List (Option Str × Str)) : List (Option Str × Str) × Str :=
+  (orig_chr_name, csv_str)
 
-theorem toSrc_init : (([] : Str), ([] : List (Option Str × Str))) = toSrc ([], []) := rfl
+/-- the loop state of the source (`csv_str`, `orig_chr_name`) for the model's state (`out`, `seen`) -/
+def toSrc (t : List (Str × Str × Bool) × List (Option Str × Str)) : List (Option Str × Str) × Str :=
+  csvSt (renderCsv t.1) t.2
+
+theorem toSrc_init : csvSt ([] : Str) ([] : List (Option Str × Str)) = toSrc ([], []) := rfl
 
 /-- the model's step, by cases, in the shape the source's body has -/
 theorem csvStep_cases (p : Str) (out : List (Str × Str × Bool)) (seen : List (Option Str × Str)) (s : Scaffold) :
@@ -124,7 +129,9 @@ theorem csvSrc_eq (asm : Assembly) (p : Str) :
            else some (renderCsv (chromosomeNameCsv p asm.scaffolds))) := by
   unfold Gen.Imp.AssemblyStats_chromosome_name_csv
   simp only []
-  rw [toSrc_init, forIn_toSrc toSrc (csvStep p)]
+  have hinit := toSrc_init
+  dsimp only [csvSt] at hinit
+  rw [hinit, forIn_toSrc toSrc (csvStep p)]
   · rw [chromosomeNameCsv_eq]
     generalize (List.foldl (csvStep p) ([], []) asm.scaffolds) = t
     obtain ⟨out, seen⟩ := t
